@@ -113,6 +113,25 @@ def shard_systematic(kind, lo, hi, tier):
             items.append(ir.Label('bot'))
             _batch_judge(items, res, name)
             res.sample({'systematic': name, 'lines': len(items)})
+    elif kind == 'far':
+        # call / tail at every distance class, forwards and backwards: must be accepted and must land
+        dists = S.Builder.DIST['call'][lo:hi]
+        for d in dists:
+            for jit in (-8, -6, -4, -2, 0, 2, 4, 6, 8):
+                gap = d + jit
+                if gap < 0:
+                    continue
+                for name in ('call', 'tail'):
+                    for fwd in (True, False):
+                        filler = [ir.Insn('addi', {'rd': ir.Reg(8), 'rs1': ir.Reg(8), 'imm': ir.Lit(1)})] if (gap // 2) % 2 else []
+                        if fwd:
+                            items = [ir.Pseudo(name, ['far_away'])] + filler + ([ir.Gap(gap)] if gap else []) + [ir.Label('far_away'), ir.Pseudo('nop', [])]
+                        else:
+                            items = [ir.Label('far_away')] + ([ir.Gap(gap)] if gap else []) + filler + [ir.Pseudo(name, ['far_away'])]
+                        res.evaluations += 1
+                        res.nontrivial_count += 1
+                        _batch_judge(items, res, name)
+            res.sample({'far': 'call/tail', 'distance class': d, 'jitter': '-8..8 step 2', 'directions': 'both'})
     else:
         # li value space: low 13 bits complete x upper parts [lo, hi)
         ups = LI_UPPERS[lo:hi]
@@ -137,7 +156,8 @@ def shard_systematic(kind, lo, hi, tier):
 def run(tier):
     chk = env.Check(PROP, tier)
     chk.rule = ('(1) systematic: all 27 pseudo-instructions x every register for rd (x rs sample; all pairs in '
-                'thorough) and li over low-13-bits-complete x %d upper parts, both spellings, both compression modes; '
+                'thorough) and li over low-13-bits-complete x %d upper parts, both spellings, call/tail at each of the call distance classes '
+                '(0 .. 1 MiB + 8 KiB) +-8 bytes forwards and backwards (must be accepted and land), both compression modes; '
                 '(2) Hypothesis IR programs (profile pseudo: pseudo-instructions among compressible code, targets at '
                 'all distance classes). Each expansion is executed by rvref.step from 14 register files and compared '
                 'with the documented function (registers, next pc, link, scratch, events). non-trivial = pseudo with '
@@ -146,6 +166,8 @@ def run(tier):
     jobs = [('regs', i, i + 1, tier) for i in range(len(ALL27))]
     ups = len(LI_UPPERS) if tier == 'thorough' else 6
     jobs += [('li', i, i + 1, tier) for i in range(ups)]
+    nd = len(S.Builder.DIST['call'])
+    jobs += [('far', i, i + 1, tier) for i in range(nd)]
     chk.merge(env.run_shards(shard_systematic, jobs))
     progcheck.run_sharded(chk, PROP, PROFILE, N[tier], 'judge', __name__)
     _prog.check_vacuity(chk)
